@@ -390,8 +390,9 @@ def ugrid_encoding(draw, supply=None, coords_as=None, allow_transpose=True, dtyp
     return {
         "names": draw(st.sampled_from(UGRID_NAMESETS)),
         "dims": draw(st.sampled_from(UGRID_DIMSETS)),
-        "start_index": draw(st.sampled_from([None, 0, 1, 1])),
+        "start_index": (start_index := draw(st.sampled_from([None, 0, 1, 1]))),
         "fill": draw(st.sampled_from(["nan", "int", "int"])),
+        "fill_value": draw(st.sampled_from([None, None, -1, -999] + ([0] if start_index == 1 else []))),
         "dtype": draw(st.sampled_from(dtypes)),
         "supply": list(supply),
         "transposed": transposed,
@@ -452,7 +453,7 @@ def variable(draw, name, kinds, extra, dtypes=("f8", "f8", "f4", "i4", "i2"), al
     fill = None
     if dtype in ("i4", "i2") and draw(st.booleans()):
         fill = [draw(st.sampled_from(["_FillValue", "missing_value"])),
-                draw(st.sampled_from([-999, 32767 if dtype == "i2" else 999999, -1]))]
+                draw(st.sampled_from([-999, 32767 if dtype == "i2" else 999999, -1, 0]))]
     var = {"name": name, "kind": kind, "dims": dims, "dtype": dtype, "fill": fill}
     can_miss = dtype in ("f8", "f4") or fill is not None
     if allow_nan and can_miss and sizes is not None and draw(st.booleans()):
@@ -483,6 +484,10 @@ def variables(draw, spec_so_far, max_vars=3, min_vars=1, **kwargs):
 
 
 # ---- whole datasets
+
+# cached properties that may be read, in any order, before a check starts looking
+WARMUP_PROPERTIES = ["polygons", "mask", "strtree", "spatial_index", "face_centres", "geometry",
+                     "bounds", "grid_size", "grid_kinds", "depth_coordinates", "topology"]
 
 @st.composite
 def geometry(draw, conv, **kw):
@@ -519,6 +524,8 @@ def dataset_spec(draw, convs=ALL_CONVS, max_vars=3, min_vars=1, max_extra=2,
     spec["vars"] = draw(variables(spec, max_vars=max_vars, min_vars=min_vars,
                                   **(var_kwargs or {}))) if with_vars else []
     spec["mode"] = draw(st.sampled_from(list(modes)))
+    spec["bind"] = draw(st.sampled_from(["auto", "auto", "explicit"]))
+    spec["warmup"] = draw(st.lists(st.sampled_from(WARMUP_PROPERTIES), max_size=4, unique=True))
     return spec
 
 
